@@ -1,6 +1,6 @@
 (* CorrC20.v — evaluation entry point for the C20 correspondence: every case carries the
    input and what the implementation returned; run_case recomputes it with the model. *)
-From Verif Require Import Bytes Uvarint Keys Codec Corr.
+From Verif Require Import Bytes Uvarint Keys Codec Crc32c LogRecord Corr.
 Open Scope N_scope.
 
 Inductive case :=
@@ -16,7 +16,11 @@ Inductive case :=
 | VpDec (b : bytes) (r : option vptr)
 | VpLess (p o : vptr) (r : bool)
 | UvPut (x : N) (enc : bytes) (sz : N)
-| UvGet (buf : bytes) (v : N) (n : Z).
+| UvGet (buf : bytes) (v : N) (n : Z)
+(* header.DecodeFrom over a reader with short reads: fields + bytes read, or the error class
+   (1 io.EOF, 2 io.ErrUnexpectedEOF, 3 overflow); the model is LogRecord.header_read, which does
+   not depend on how the reader chunks its input *)
+| HdrFrom (buf : bytes) (r : option (header * Z)) (cls : N).
 
 Definition header_eqb (a b : header) : bool :=
   (h_klen a =? h_klen b) && (h_vlen a =? h_vlen b) && (h_expires a =? h_expires b)
@@ -65,4 +69,11 @@ Definition run_case (c : case) : bool * list N :=
       let m := uvarint buf in
       ((fst m =? v) && (snd m =? n)%Z,
        [if (snd m <? 0)%Z then 91 else if (snd m =? 0)%Z then 92 else 93])
+  | HdrFrom buf r cls =>
+      match header_read buf with
+      | HOk h hlen _ => (opt_eqb (pair_eqb header_eqb Z.eqb) (Some (h, Z.of_nat hlen)) r && (cls =? 0), [95])
+      | HEof => (match r with None => true | _ => false end && (cls =? 1), [96])
+      | HUnexpected => (match r with None => true | _ => false end && (cls =? 2), [97])
+      | HOverflow => (match r with None => true | _ => false end && (cls =? 3), [98])
+      end
   end.
